@@ -34,15 +34,19 @@ ASSUMPTIONS = [
 ]
 
 
-def emit_doc(doc, extra_blocks=None):
-    text = _emit_block(doc, "verif")
+def emit_doc(doc, extra_blocks=None, layout=None):
+    """layout: None (item names at the start of their lines, one per line), "indented" (names preceded by blanks, as
+    CIF dictionaries and some writers lay them out), "one-line" (loop_ and the item names share a line), "crlf-free
+    tabs" (names preceded by a tab) - CIF is a token stream, the position of a name on its line means nothing"""
+    text = _emit_block(doc, "verif", layout)
     for k, blk in enumerate(extra_blocks or []):
-        text += _emit_block(blk, f"more{k + 1}")
+        text += _emit_block(blk, f"more{k + 1}", layout)
     return text
 
 
-def _emit_block(doc, name):
+def _emit_block(doc, name, layout=None):
     out = [f"data_{name}", "#"]
+    lead = {"indented": "  ", "tabs": "\t"}.get(layout, "")
     for cat in doc:
         name, items, rows, loop = cat["name"], cat["items"], cat["rows"], cat["loop"]
 
@@ -56,17 +60,20 @@ def _emit_block(doc, name):
                 return "\n;" + v + "\n;\n"
             return q
 
-        if loop:
+        if loop and layout == "one-line":
+            out.append("loop_ " + " ".join(f"_{name}.{it}" for it in items))
+        elif loop:
             out.append("loop_")
             for it in items:
-                out.append(f"_{name}.{it}")
+                out.append(f"{lead}_{name}.{it}")
+        if loop:
             for r in rows:
                 line = " ".join(tok(v) for v in r)
                 out.append(line.replace(" \n", "\n").replace("\n ", "\n"))
         else:
             for it, v in zip(items, rows[0]):
                 t = tok(v)
-                out.append(f"_{name}.{it} {t}".replace(" \n", "\n"))
+                out.append(f"{lead}_{name}.{it} {t}".replace(" \n", "\n"))
         out.append("#")
     text = "\n".join(out) + "\n"
     while "\n\n" in text:
@@ -162,7 +169,7 @@ def oracle(case):
         with corpus.open_corpus(case["file"]) as f:
             text = f.read()
     else:
-        text = emit_doc(case["doc"], case.get("extra_blocks"))
+        text = emit_doc(case["doc"], case.get("extra_blocks"), case.get("layout"))
     info = case.setdefault("_info", {})
     if not survives_mmcif_package(text):
         # e.g. 6g90_1.cif carries a category written as '__chem_comp' that IoAdapterPy itself does not preserve
@@ -306,6 +313,8 @@ def classify(case):
         labs.append("null-in-edited-category")
     if op.get("target") and cat is not None and op["target"] not in cat["items"]:
         labs.append("new-target-item")
+    if case.get("layout"):
+        labs.append("layout-" + case["layout"])
     if case.get("extra_blocks"):
         labs.append("several-data-blocks")
         if any(c["name"] == op["category"] for b in case["extra_blocks"] for c in b):
@@ -370,7 +379,7 @@ def st_cases():
             alphabet = draw(st.sampled_from(["ABCDEFGHIJKLMNOPQRSTUVWXYZ", "abcdefghij0123456789", "ZYXWVUTSRQPONMLK", "0123456789abcdefghijklmnopqrstuvwxyz",
                                              "AB", "BA1", "A", "12AB", "ab"]))
             op = {"kind": "replace", "category": category, "item": col, "alphabet": alphabet, "defaults": draw(st.integers(0, 9)) == 0}
-        return {"doc": doc, "op": op, "extra_blocks": extra}
+        return {"doc": doc, "op": op, "extra_blocks": extra, "layout": draw(st.sampled_from([None, None, None, "indented", "one-line", "tabs"]))}
 
     return build()
 
